@@ -342,23 +342,59 @@ func c13CheckRequest(r *fw.R, d c13Desc, req *http.Request, hdr, hdrCopy http.He
 		bad("subprotocols", fmt.Sprintf("offered %q, want %q", gotSub, wantSub))
 	}
 	ext := req.Header.Values("Sec-WebSocket-Extensions")
-	var wantExt string
-	switch d.Mode {
-	case 1:
-		wantExt = "permessage-deflate"
-	case 2:
-		wantExt = "permessage-deflate;client_no_context_takeover;server_no_context_takeover"
-	}
+	// The offer: none when compression is disabled; otherwise one or more well formed permessage-deflate offers
+	// whose parameters are RFC 7692's (order free, the client_max_window_bits hint and a server_max_window_bits
+	// request are allowed), and in the no-context-takeover mode every offer carries both no_context_takeover flags.
+	// How the offer is spelled beyond that is the library's business.
 	gotExt := strings.ReplaceAll(strings.Join(ext, ","), " ", "")
-	if d.Mode == 2 {
-		// parameter order is free
-		a := strings.Split(gotExt, ";")
-		if len(a) == 3 && a[0] == "permessage-deflate" && ((a[1] == "client_no_context_takeover" && a[2] == "server_no_context_takeover") || (a[2] == "client_no_context_takeover" && a[1] == "server_no_context_takeover")) {
-			gotExt = wantExt
+	okOffer := func() string {
+		if d.Mode == 0 {
+			if gotExt != "" {
+				return "compression is disabled, nothing may be offered"
+			}
+			return ""
 		}
+		if gotExt == "" {
+			return "no permessage-deflate offer although compression is enabled"
+		}
+		for _, offer := range strings.Split(gotExt, ",") {
+			parts := strings.Split(offer, ";")
+			if parts[0] != "permessage-deflate" {
+				return "offers the extension " + parts[0]
+			}
+			seen := map[string]bool{}
+			for _, p := range parts[1:] {
+				name, val, hasVal := strings.Cut(p, "=")
+				val = strings.Trim(val, "\"")
+				if seen[name] {
+					return "parameter " + name + " twice"
+				}
+				seen[name] = true
+				switch name {
+				case "client_no_context_takeover", "server_no_context_takeover":
+					if hasVal {
+						return name + " with a value"
+					}
+				case "client_max_window_bits":
+					if hasVal && !(len(val) <= 2 && val >= "8" && val <= "9" || val >= "10" && val <= "15" && len(val) == 2) {
+						return "client_max_window_bits=" + val
+					}
+				case "server_max_window_bits":
+					if !hasVal || !(len(val) == 1 && val >= "8" && val <= "9" || len(val) == 2 && val >= "10" && val <= "15") {
+						return "server_max_window_bits=" + val
+					}
+				default:
+					return "unknown parameter " + name
+				}
+			}
+			if d.Mode == 2 && !(seen["client_no_context_takeover"] && seen["server_no_context_takeover"]) {
+				return "the no-context-takeover mode offers " + offer
+			}
+		}
+		return ""
 	}
-	if gotExt != wantExt {
-		bad("extension-offer", fmt.Sprintf("offer %q for mode %d, want %q", ext, d.Mode, wantExt))
+	if why := okOffer(); why != "" {
+		bad("extension-offer", fmt.Sprintf("offer %q for mode %d: %s", ext, d.Mode, why))
 	}
 	wantHost := d.Host
 	if wantHost == "" {
